@@ -11,6 +11,8 @@ import GV.Model.Muxer
      item  = s:<ts>:<pid>:<payload>      well-formed segment (length field = payload length)
            | z:<ts>:<pid>                header with length 0
            | x:<hex>                     raw bytes
+           | u:<id>:<i|r>                UnregisterProtocol(id, role) once everything before it was read
+           | g:<id>:<i|r>                RegisterProtocol(id, role)   once everything before it was read
      payload = h<hex> | g<len>.<seed>
   tx <mode> <regs> <plan> <pseed> <sender>*   a real sending muxer with one goroutine per
         sender, a real receiving muxer behind the fragmenting connection
@@ -69,11 +71,19 @@ inductive Item
   | seg (s : Seg)
   | zero (ts pid : Nat)
   | raw (b : Bytes)
+  | unreg (k : Nat × Role)
+  | reg (k : Nat × Role)
 
 def Item.enc : Item → Bytes
   | .seg s => encSeg s
   | .zero ts pid => be32 ts ++ be16 pid ++ be16 0
   | .raw b => b
+  | _ => []
+
+def Item.isCtl : Item → Bool
+  | .unreg _ => true
+  | .reg _ => true
+  | _ => false
 
 def parseItem? (s : String) : Option Item :=
   match s.splitOn ":" with
@@ -84,48 +94,74 @@ def parseItem? (s : String) : Option Item :=
     let ts ← parseNat? ts; let pid ← parseNat? pid
     pure (.zero ts pid)
   | ["x", h] => do let b ← parseHex? h; pure (.raw b)
+  | ["u", a, b] => do let k ← parseKey? (a ++ ":" ++ b); pure (.unreg k)
+  | ["g", a, b] => do let k ← parseKey? (a ++ ":" ++ b); pure (.reg k)
   | _ => none
 
-/-- The property, stated on the list of items directly (no encoding, no parsing):
-    `none` = the property is silent from here on. -/
-def specWalk (c : Cfg) : List Item → List Delivery → Option (List Delivery × List String)
-  | [], acc => some (acc.reverse, ["eof-header"])
-  | .raw _ :: _, _ => none
-  | .zero ts pid :: _, acc =>
+/-- The property, stated on the list of items directly (no encoding, no parsing, its own
+    bookkeeping of who is registered): `none` = the property is silent from here on.
+    `cur` = receivers registered now, `ever` = protocol numbers that ever had a receiver. -/
+def specWalk (mode : Nat) : List Item → List (Nat × Role) → List Nat → List Delivery →
+    Option (List Delivery × List String)
+  | [], _, _, acc => some (acc.reverse, ["eof-header"])
+  | .raw _ :: _, _, _, _ => none
+  | .unreg k :: rest, cur, ever, acc => specWalk mode rest (cur.filter (· != k)) ever acc
+  | .reg k :: rest, cur, ever, acc => specWalk mode rest (k :: cur.filter (· != k)) (k.1 :: ever) acc
+  | .zero ts pid :: _, _, _, acc =>
     if ts < 4294967296 ∧ pid < 65536 then some (acc.reverse, ["zero-len"]) else none
-  | .seg s :: rest, acc =>
+  | .seg s :: rest, cur, ever, acc =>
     if ¬ (s.ts < 4294967296 ∧ s.pid < 65536 ∧ 1 ≤ s.payload.length ∧ s.payload.length ≤ 65535) then none
     else
       let resp := decide (s.pid ≥ 32768)
       let id := s.pid % 32768
       let role := if resp then Role.initiator else Role.responder
       let dirErr : List String :=
-        if c.mode = 1 ∧ resp = false then ["from-initiator"]
-        else if c.mode = 2 ∧ resp = true then ["from-responder"] else []
-      let registered := c.regs.contains (id, role)
-      let catchAll := c.regs.any (fun r => r.1 == 0xabcd)
+        if mode = 1 ∧ resp = false then ["from-initiator"]
+        else if mode = 2 ∧ resp = true then ["from-responder"] else []
+      let registered := cur.contains (id, role)
+      let catchAll := cur.any (fun r => r.1 == 0xabcd) || ever.contains 0xabcd
       if !dirErr.isEmpty then
         -- the property does not say which error wins when the protocol is unregistered too
         some (acc.reverse, dirErr ++ (if registered then [] else [s!"unknown-proto:{id}"]))
-      else if registered then specWalk c rest (((id, role), s.payload) :: acc)
-      else if catchAll then none
+      else if registered then specWalk mode rest cur ever (((id, role), s.payload) :: acc)
+      else if catchAll && !ever.contains id then none   -- never-registered number, catch-all present: silent
       else some (acc.reverse, [s!"unknown-proto:{id}"])
 
-def outLine (c : Cfg) (ds : List Delivery) (e : String) : String :=
-  s!"err={e} recv={renderRecv c.regs ds}"
+def outLine (keys : List (Nat × Role)) (ds : List Delivery) (e : String) : String :=
+  s!"err={e} recv={renderRecv keys ds}"
+
+/-- Consecutive data items become one byte stream cut by the chunk plan; control items
+    stand between them. -/
+def toActs (plan : List Nat) : List Item → Bytes → List Act → List Act
+  | [], pending, acc =>
+    (if pending.isEmpty then acc else (chunkBy plan pending).reverse.map Act.data ++ acc).reverse
+  | it :: rest, pending, acc =>
+    match it with
+    | .unreg k =>
+      let acc := if pending.isEmpty then acc else (chunkBy plan pending).reverse.map Act.data ++ acc
+      toActs plan rest [] (Act.unreg k.1 k.2 :: acc)
+    | .reg k =>
+      let acc := if pending.isEmpty then acc else (chunkBy plan pending).reverse.map Act.data ++ acc
+      toActs plan rest [] (Act.reg k.1 k.2 :: acc)
+    | d => toActs plan rest (pending ++ d.enc) acc
 
 def handleRx (toks : List String) : Out :=
   match toks with
   | mode :: regs :: plan :: items =>
     match parseNat? mode, parseKeys? regs, parseNatList? plan, items.mapM parseItem? with
     | some mode, some regs, some plan, some items =>
-      let c : Cfg := ⟨mode, regs⟩
-      let wire := items.flatMap Item.enc
-      let r := run c (chunkBy plan wire)
-      let spec := match specWalk c items [] with
+      -- every key that is registered at some point gets a line in the output
+      let allKeys := regs ++ items.filterMap fun it => match it with | .reg k => some k | _ => none
+      -- Without run-time registration changes the whole stream is fed as one chunk: by
+      -- `GV.Props.C09.run_single` / `frag_irrelevant` (theorems) the result is the same for every
+      -- fragmentation of these bytes, in particular for the op's chunk plan. With control items
+      -- the stream is cut by the plan and the registrations change between the reads.
+      let r := if items.any Item.isCtl then runActs mode (RegMap.ofKeys regs) (toActs plan items [] [])
+               else run ⟨mode, RegMap.ofKeys regs⟩ [items.flatMap Item.enc]
+      let spec := match specWalk mode items regs (regs.map (·.1)) [] with
         | none => "*"
-        | some (ds, es) => "||".intercalate (es.map fun e => outLine c ds e)
-      { model := outLine c r.1 (endStr r.2), spec := spec }
+        | some (ds, es) => "||".intercalate (es.map fun e => outLine allKeys ds e)
+      { model := outLine allKeys r.1 (endStr r.2), spec := spec }
     | _, _, _, _ => badOp
   | _ => badOp
 
@@ -169,20 +205,20 @@ def handleTx (toks : List String) (impl : String) : Out :=
   | mode :: regs :: plan :: _pseed :: senders =>
     match parseNat? mode, parseKeys? regs, parseNatList? plan, senders.mapM parseSender? with
     | some mode, some regs, some plan, some senders =>
-      let c : Cfg := ⟨mode, regs⟩
+      let c : Cfg := ⟨mode, RegMap.ofKeys regs⟩
       let nilCount := (senders.map fun s => s.payloads.length - s.segs.length).sum
       -- spec: independent of the order when every sender's receiver is registered and allowed
       let okSender (s : Sender) : Bool :=
         let pk := peerKey s.key
-        s.key.1 < 32768 && c.regs.contains pk &&
+        s.key.1 < 32768 && regs.contains pk &&
           !(c.mode == 1 && pk.2 == Role.responder) && !(c.mode == 2 && pk.2 == Role.initiator)
       let distinct := (senders.map (·.key)).eraseDups.length == senders.length
       let dirOk (s : Sender) : Bool :=
         let pk := peerKey s.key
         !(c.mode == 1 && pk.2 == Role.responder) && !(c.mode == 2 && pk.2 == Role.initiator)
       let allValid := senders.all fun s => s.key.1 < 32768 && s.payloads.all (fun p => 1 ≤ p.length ∧ p.length ≤ 65535)
-      let catchAll := c.regs.any (fun r => r.1 == 0xabcd)
-      let unreg := senders.filter fun s => !c.regs.contains (peerKey s.key) && !s.payloads.isEmpty
+      let catchAll := regs.any (fun r => r.1 == 0xabcd)
+      let unreg := senders.filter fun s => !regs.contains (peerKey s.key) && !s.payloads.isEmpty
       let spec :=
         if distinct && allValid && !catchAll && senders.all dirOk && !unreg.isEmpty then
           -- some sender has no receiver at the peer: the connection must end with that error
@@ -191,7 +227,7 @@ def handleTx (toks : List String) (impl : String) : Out :=
           let ds : List Delivery := senders.flatMap fun s =>
             (s.payloads.filter (fun p => 1 ≤ p.length ∧ p.length ≤ 65535)).map fun p => (peerKey s.key, p)
           if senders.all (fun s => s.payloads.all (fun p => 1 ≤ p.length)) then
-            outLine c ds "eof-header" ++ s!" nil={nilCount} *"
+            outLine regs ds "eof-header" ++ s!" nil={nilCount} *"
           else "*"
         else "*"
       match (field? "order" impl).bind parseKeys? with
@@ -201,9 +237,9 @@ def handleTx (toks : List String) (impl : String) : Out :=
         | none => { model := "reject:not-an-interleaving", spec := spec }
         | some w =>
           let wire := w.flatMap encSeg
-          let r := run c (chunkBy plan wire)
+          let r := run c [wire]   -- any fragmentation gives the same result (C09.run_single)
           let ord := if order.isEmpty then "-" else ",".intercalate (order.map keyStr)
-          { model := outLine c r.1 (endStr r.2) ++ s!" nil={nilCount} order={ord} wire={fp wire}",
+          { model := outLine regs r.1 (endStr r.2) ++ s!" nil={nilCount} order={ord} wire={fp wire}",
             spec := spec }
     | _, _, _, _ => badOp
   | _ => badOp
